@@ -987,6 +987,8 @@ def _rsa_sign_case():
         "flip_s": st.integers(0, 1 << 24),
         "other": K.rsa_key_desc(),
         "sp": st.sampled_from([None, None, "file", "config", "interactive"]),
+        # the same key objects used once more with another parameter set (a key object is not bound to its first use)
+        "second": st.one_of(st.none(), st.fixed_dictionaries({"alg": st.sampled_from(ALGS), "pss": st.booleans()})),
     })
 
 
@@ -1033,6 +1035,23 @@ def run_rsa_sign(case, o: Oracle) -> None:
         if not pss:
             # PKCS#1 v1.5 is deterministic: signing again gives the same bytes
             o.eq("rsa_verify", "deterministic", sk.sign(data, **kw), sig)
+    second = case.get("second")
+    if second:
+        alg2, pss2 = second["alg"], bool(second["pss"])
+        kw2 = {"algorithm": _alg(alg2)}
+        if pss2:
+            kw2["pss_padding"] = True
+        o.label("rsa_second_use", "rsa_second_use:%s->%s" % ("pss" if pss else "v15", "pss" if pss2 else "v15"))
+        if pss and pss2 and alg2 != eff_alg:
+            o.label("rsa_second_use:pss_other_hash")
+        with o.spsdk("rsa_sign", "second_use"):
+            sig2 = sk.sign(msg, **kw2)
+            ok2 = pk.rsa_pss_verify(n, e, sig2, msg, alg2, salt_len=len(pk.digest(alg2, b""))) if pss2 else pk.rsa_pkcs1v15_verify(n, e, sig2, msg, alg2)
+            o.check("rsa_sign", ok2, "second_use_reference_rejects", "first use alg %s pss %s, then alg %s pss %s on the same key object" % (eff_alg, pss, alg2, pss2))
+            o.check("rsa_verify", pub.verify_signature(sig2, msg, **kw2) is True, "second_use_own_signature_rejected")
+            # ... and a public key object that has verified with the first set accepts a reference-valid signature of the second
+            fresh = PrivateKeyRsa(ck).sign(msg, **kw2)
+            o.check("rsa_verify", pub.verify_signature(fresh, msg, **kw2) is True, "second_use_valid_signature_rejected")
     with o.spsdk("rsa_sound", "negatives"):
         for kind, m2 in (("modified_message_accepted", _flip(msg, case["flip_m"]) if msg else b"\0"), ("extended_message_accepted", msg + b"\0")):
             o.check("rsa_sound", pub.verify_signature(sig, pk.digest(eff_alg, m2) if prehashed else m2, **kw) is False, kind)
